@@ -379,6 +379,9 @@ func (d c08) Execute(c *core.Case) *core.Result {
 									feat = append(feat, "stale-approvals-answer-explains")
 								}
 							}
+							if l.PolicyAsOf(cacheLogLen) == nil && truth {
+								feat = append(feat, "stale-policy-answer-explains") // the index knows no policy at all: the lookup fails
+							}
 							if l.DecideUnder(p, tp, nil).Authorized != truth {
 								feat = append(feat, "stale-approvals-answer-explains") // no attestation state known at all
 							}
